@@ -1,9 +1,43 @@
 /-
   Sipsp.Proofs.HdrTyped — header lines of the eight header types with a dedicated value parser (From, To, Call-ID,
-  CSeq, Content-Length, Contact, Expires, P-Asserted-Identity) when a values object is supplied: ParseHdrLine hands
-  the text after the colon to the value parser and reports that parser's value span; accumulation of the Contact /
-  P-Asserted-Identity values over several header lines of one message; header blocks that mix generic and typed
-  lines.
+  CSeq, Content-Length, Contact, Expires, P-Asserted-Identity) when a values object is supplied; accumulation of the
+  Contact / P-Asserted-Identity values over several header lines of one message; header blocks that mix generic and
+  typed lines.  Everything for ALL buffers within the 65,535-byte limit, ALL offsets and ALL texts of the grammars.
+
+  (1) the typed path, for ANY text after the colon (EXPORT C07):
+      `ht_line_from / _to / _callid / _cseq / _clen / _expires / _contact / _pai`: for `name [SP/HT] ":" …` whose name
+      classifies as that type, a new header object and a values object whose component is not yet parsed,
+      ParseHdrLine = (verdict and offset of the value parser started after the colon, header = name as written, type,
+      `val` = the value parser's span and finished iff the verdict is OK (`htHdr`), values object changed in that one
+      component only).  `ht_line_*_at`: the same with the value parser started at the first value byte `v`
+      (`ht_na_lead_lws`, `ht_ci_lead_lws`, `ht_ui_lead_lws`, `ht_clen_lead_lws`, `ht_cs_lead_lws`: each value parser
+      skips the linear white space in front of the value).  `ht_prefix`, `ht_prefix_done`, `ht_prefix_cont`: the line
+      up to the colon, whatever follows.
+  (2) instantiated with value grammars (EXPORT C07):
+      `ht_from_value`, `ht_to_value` (C09 grammar `NAValue`: `val` = the value span of the name-addr value, which by
+      `ht_navalue_v` runs from the first byte after the leading white space to where the end of the value begins);
+      `ht_callid_run` / `ht_callid_value` (one run of non-white-space bytes: `val` = that run);
+      `ht_uint_run` / `ht_expires_value`, `ht_clen_run` / `ht_clen_value` (digits: `val` = the digit string, number =
+      its decimal value; Content-Length: at most 9 digits and 2^24);
+      `ht_cseq_run` / `ht_cseq_value` (digits, white space, method: number exact, method classified from its text,
+      `val` from the first digit to the end of the method);
+      `ht_contact_values`, `ht_pai_values` (`ValList`: `val` = `htSpan` = from the start of the first value to the
+      end of the last one, `ht_lhv_line`; object = `htLine`: header counter + 1, values accepted in order, for any
+      capacity, also on an object that already holds values of earlier lines).
+      `ht_line_gen`, `ht_line_gen_empty`, `HdrLineAt.ht_parse`: generic scanning with a values object (`HtGen`:
+      types without value parser, and repeated single-valued headers whose value is already parsed).
+  (3) several Contact lines (EXPORT C09): `PContacts.htLines` and `ht_htLines_hNo` (HNo = number of Contact lines),
+      `ht_htLines_n` (N = total number of values), `ht_htLines_stored` (stored values = all values in order, up to
+      the capacity), `ht_htLines_maxE`, `ht_htLines_minE` (max / min expires over all values), `ht_htLines_ready`;
+      one line: `ht_htLine_*`.  PAI: `ht_paLines_hNo`, `ht_paLines_n`.  Tied to ParseHeaders by `HtBlock.contacts`.
+  (4) blocks (EXPORT C07): `HtLine` (a generic line or a typed line whose value satisfies its grammar), `HtBlock`,
+      `ht_parseHeaders_block` (one header per line, in order, the values object threaded through the typed lines),
+      `HtBlock.contacts` (the contacts / PAI objects after the block = `htLines` of the Contact / PAI lines of the
+      block, whatever stands between them), `HtBlock.ct_ne`.  Non-vacuity: `htEx_block` and the examples at the end.
+  NOT proved: stored values / expires summaries for P-Asserted-Identity lines beyond the counters; typed lines whose
+  single-valued component is in the middle of a value (resumption after "more bytes": L2 theorems elsewhere);
+  Contact `*`; rejection results other than the tests at the end (with a values object the typed kinds reject an
+  empty value, a Call-ID of two tokens, a Content-Length of more than 9 digits — see the tests).
 -/
 import Sipsp.Proofs.HdrSpec
 import Sipsp.Proofs.NameAddrSpec
@@ -399,6 +433,72 @@ theorem ht_cs_lead_lws (b : Buf) {o0 o : Nat} (hl : Lws b o0 o) {c : UInt8} (hc 
   have hnf : ¬ st.state = .fin := by rw [hst]; decide
   rw [if_neg hnf, if_neg hnf]
   exact ht_skip_lws csMachine b st (csEOH b) id hl hc hcl (fun c' hc' => ht_csStep_lws b o0 c' st hc' (Or.inl hst))
+
+
+/-! #### (1), phrased at the first byte of the value
+
+  The same with the value parser started at the first value byte `v` (after the linear white space that follows the
+  colon), for a component that is still in its initial state. -/
+
+theorem ht_line_from_at (b : Buf) (o n c v : Nat) (hv : PHdrVals) (hfit : b.size ≤ 65535)
+    (hname : NameRun b o n) (hon : o < n) (hws : WsRun b n c) (hnc : n ≤ c) (hcolon : b[c]? = some 58)
+    (ht : getHdrType (b.extract o n) = HdrFrom) (hl : Lws b (c + 1) v) {cv : UInt8} (hv0 : b[v]? = some cv)
+    (hcv : isLWSch cv = false) (hst : hv.from_.state = .init) {n' : Nat} {e : Err} {f : PFromBody}
+    (hp : parseFromVal b v hv.from_ = (n', e, f)) :
+    parseHdrLine b o {} (some hv) = (n', e, htHdr HdrFrom o n .hFrom e f.v, some { hv with from_ := f }) := by
+  have hp' : parseFromVal b (c + 1) hv.from_ = (n', e, f) := by
+    rw [← hp]; exact ht_na_lead_lws HdrFrom b hl hv0 hcv _ hst
+  exact ht_line_from b o n c hv hfit hname hon hws hnc hcolon ht (by unfold PFromBody.parsed; rw [hst]; rfl) hp'
+
+theorem ht_line_to_at (b : Buf) (o n c v : Nat) (hv : PHdrVals) (hfit : b.size ≤ 65535)
+    (hname : NameRun b o n) (hon : o < n) (hws : WsRun b n c) (hnc : n ≤ c) (hcolon : b[c]? = some 58)
+    (ht : getHdrType (b.extract o n) = HdrTo) (hl : Lws b (c + 1) v) {cv : UInt8} (hv0 : b[v]? = some cv)
+    (hcv : isLWSch cv = false) (hst : hv.to.state = .init) {n' : Nat} {e : Err} {f : PFromBody}
+    (hp : parseNameAddrPVal HdrTo b v hv.to = (n', e, f)) :
+    parseHdrLine b o {} (some hv) = (n', e, htHdr HdrTo o n .hTo e f.v, some { hv with to := f }) := by
+  have hp' : parseNameAddrPVal HdrTo b (c + 1) hv.to = (n', e, f) := by
+    rw [← hp]; exact ht_na_lead_lws HdrTo b hl hv0 hcv _ hst
+  exact ht_line_to b o n c hv hfit hname hon hws hnc hcolon ht (by unfold PFromBody.parsed; rw [hst]; rfl) hp'
+
+theorem ht_line_callid_at (b : Buf) (o n c v : Nat) (hv : PHdrVals) (hfit : b.size ≤ 65535)
+    (hname : NameRun b o n) (hon : o < n) (hws : WsRun b n c) (hnc : n ≤ c) (hcolon : b[c]? = some 58)
+    (ht : getHdrType (b.extract o n) = HdrCallID) (hl : Lws b (c + 1) v) {cv : UInt8} (hv0 : b[v]? = some cv)
+    (hcv : isLWSch cv = false) (hst : hv.callid.state = .init) {n' : Nat} {e : Err} {f : PCallIDBody}
+    (hp : parseCallIDVal b v hv.callid = (n', e, f)) :
+    parseHdrLine b o {} (some hv) = (n', e, htHdr HdrCallID o n .hCallID e f.callID, some { hv with callid := f }) := by
+  have hp' : parseCallIDVal b (c + 1) hv.callid = (n', e, f) := by
+    rw [← hp]; exact ht_ci_lead_lws b hl hv0 hcv _ hst
+  exact ht_line_callid b o n c hv hfit hname hon hws hnc hcolon ht (by unfold PCallIDBody.parsed; rw [hst]; rfl) hp'
+
+theorem ht_line_cseq_at (b : Buf) (o n c v : Nat) (hv : PHdrVals) (hfit : b.size ≤ 65535)
+    (hname : NameRun b o n) (hon : o < n) (hws : WsRun b n c) (hnc : n ≤ c) (hcolon : b[c]? = some 58)
+    (ht : getHdrType (b.extract o n) = HdrCSeq) (hl : Lws b (c + 1) v) {cv : UInt8} (hv0 : b[v]? = some cv)
+    (hcv : isLWSch cv = false) (hst : hv.cseq.state = .init) {n' : Nat} {e : Err} {f : PCSeqBody}
+    (hp : parseCSeqVal b v hv.cseq = (n', e, f)) :
+    parseHdrLine b o {} (some hv) = (n', e, htHdr HdrCSeq o n .hCSeq e f.v, some { hv with cseq := f }) := by
+  have hp' : parseCSeqVal b (c + 1) hv.cseq = (n', e, f) := by
+    rw [← hp]; exact ht_cs_lead_lws b hl hv0 hcv _ hst
+  exact ht_line_cseq b o n c hv hfit hname hon hws hnc hcolon ht (by unfold PCSeqBody.parsed; rw [hst]; rfl) hp'
+
+theorem ht_line_clen_at (b : Buf) (o n c v : Nat) (hv : PHdrVals) (hfit : b.size ≤ 65535)
+    (hname : NameRun b o n) (hon : o < n) (hws : WsRun b n c) (hnc : n ≤ c) (hcolon : b[c]? = some 58)
+    (ht : getHdrType (b.extract o n) = HdrCLen) (hl : Lws b (c + 1) v) {cv : UInt8} (hv0 : b[v]? = some cv)
+    (hcv : isLWSch cv = false) (hst : hv.clen.state = .init) {n' : Nat} {e : Err} {f : PUIntBody}
+    (hp : parseCLenVal b v hv.clen = (n', e, f)) :
+    parseHdrLine b o {} (some hv) = (n', e, htHdr HdrCLen o n .hCLen e f.sVal, some { hv with clen := f }) := by
+  have hp' : parseCLenVal b (c + 1) hv.clen = (n', e, f) := by
+    rw [← hp]; exact ht_clen_lead_lws b hl hv0 hcv _ hst
+  exact ht_line_clen b o n c hv hfit hname hon hws hnc hcolon ht (by unfold PUIntBody.parsed; rw [hst]; rfl) hp'
+
+theorem ht_line_expires_at (b : Buf) (o n c v : Nat) (hv : PHdrVals) (hfit : b.size ≤ 65535)
+    (hname : NameRun b o n) (hon : o < n) (hws : WsRun b n c) (hnc : n ≤ c) (hcolon : b[c]? = some 58)
+    (ht : getHdrType (b.extract o n) = HdrExpires) (hl : Lws b (c + 1) v) {cv : UInt8} (hv0 : b[v]? = some cv)
+    (hcv : isLWSch cv = false) (hst : hv.expires.state = .init) {n' : Nat} {e : Err} {f : PUIntBody}
+    (hp : parseUIntVal b v hv.expires = (n', e, f)) :
+    parseHdrLine b o {} (some hv) = (n', e, htHdr HdrExpires o n .hExpires e f.sVal, some { hv with expires := f }) := by
+  have hp' : parseUIntVal b (c + 1) hv.expires = (n', e, f) := by
+    rw [← hp]; exact ht_ui_lead_lws b hl hv0 hcv _ hst
+  exact ht_line_expires b o n c hv hfit hname hon hws hnc hcolon ht (by unfold PUIntBody.parsed; rw [hst]; rfl) hp'
 
 /-! ### (2) From / To: the value is a name-addr value of the C09 grammar -/
 
@@ -1267,5 +1367,423 @@ theorem ht_htLines_ready (c : PContacts) (rss : List (List PFromBody)) (hr : HtC
     rw [ht_htLines_cons]
     exact ih _ (ht_htLine_ready c rs hr (hne rs List.mem_cons_self) (hfin rs List.mem_cons_self))
       (fun x hx => hne x (List.mem_cons_of_mem _ hx)) (fun x hx => hfin x (List.mem_cons_of_mem _ hx))
+
+/-! #### P-Asserted-Identity lines -/
+
+theorem ht_paAcceptAll_ready (rs : List PFromBody) (hne : rs ≠ []) (hfin : ∀ r ∈ rs, r.state = .fin) :
+    ∀ c : PPAIs, PaClean c → HtPaReady (c.acceptAll rs) := by
+  induction rs with
+  | nil => exact absurd rfl hne
+  | cons r rs ih =>
+    intro c hc
+    cases rs with
+    | nil =>
+      have := paDone_facts c r hc (hfin r List.mem_cons_self)
+      exact ⟨this.2, this.1⟩
+    | cons r2 rs' =>
+      show HtPaReady ((c.next r).acceptAll (r2 :: rs'))
+      exact ih (by simp) (fun x hx => hfin x (List.mem_cons_of_mem _ hx)) (c.next r) (paNext_clean c r hc).1
+
+theorem ht_paLine_eq (c : PPAIs) (rs : List PFromBody) : c.htLine rs = c.wrap.htBump.acceptAll rs := by
+  unfold PPAIs.htLine; rw [ht_paBump_wrap]
+
+theorem ht_paLine_ready (c : PPAIs) (rs : List PFromBody) (hr : HtPaReady c) (hne : rs ≠ [])
+    (hfin : ∀ r ∈ rs, r.state = .fin) : HtPaReady (c.htLine rs) := by
+  rw [ht_paLine_eq]
+  exact ht_paAcceptAll_ready rs hne hfin c.wrap.htBump hr.1
+
+theorem ht_paLine_hNo (c : PPAIs) (rs : List PFromBody) : (c.htLine rs).hNo = c.hNo + 1 := by
+  rw [ht_paLine_eq, ht_paAcceptAll_hNo]
+  show c.wrap.hNo + 1 = _
+  rw [(paWrap_scalars c).2.2.1]
+
+theorem ht_paLine_n (c : PPAIs) (rs : List PFromBody) : (c.htLine rs).n = c.n + rs.length := by
+  rw [ht_paLine_eq, paAcceptAll_n]
+  show c.wrap.n + _ = _
+  rw [(paWrap_scalars c).1]
+
+def PPAIs.htLines (c : PPAIs) (rss : List (List PFromBody)) : PPAIs := rss.foldl PPAIs.htLine c
+
+theorem ht_paLines_hNo (c : PPAIs) (rss : List (List PFromBody)) : (c.htLines rss).hNo = c.hNo + rss.length := by
+  induction rss generalizing c with
+  | nil => rfl
+  | cons rs rss ih =>
+    show ((c.htLine rs).htLines rss).hNo = _
+    rw [ih, ht_paLine_hNo, List.length_cons]; omega
+
+theorem ht_paLines_n (c : PPAIs) (rss : List (List PFromBody)) : (c.htLines rss).n = c.n + rss.flatten.length := by
+  induction rss generalizing c with
+  | nil => rfl
+  | cons rs rss ih =>
+    show ((c.htLine rs).htLines rss).n = _
+    rw [ih, ht_paLine_n, List.flatten_cons, List.length_append]; omega
+
+/-! ### (4) header blocks that mix generic and typed lines -/
+
+/-- the value grammars of the typed lines, as predicates: the text at `i0` (right after the colon), the offset `e`
+    after the line, and the object the value parser produces from a new object -/
+def HtCallIDVal (b : Buf) (i0 e : Nat) (f : PCallIDBody) : Prop :=
+  ∃ v j p, ∃ c2 : UInt8, Lws b i0 v ∧ TokenRun b v j ∧ v < j ∧ Lws b j p ∧ Eol b p e ∧ b[e]? = some c2 ∧ isWS c2 = false ∧
+    f = { callID := ⟨v, j - v⟩, state := .fin }
+
+def HtUIntVal (b : Buf) (i0 e : Nat) (f : PUIntBody) : Prop :=
+  ∃ v j p, ∃ c2 : UInt8, Lws b i0 v ∧ Run isDigit b v j ∧ v < j ∧ decOf (digitsOf b v j) ≤ 4294967295 ∧ Lws b j p ∧
+    Eol b p e ∧ b[e]? = some c2 ∧ isWS c2 = false ∧
+    f = { uiVal := decOf (digitsOf b v j), sVal := ⟨v, j - v⟩, state := .fin }
+
+/-- Content-Length: at most 9 digits, value at most 2^24 -/
+def HtCLenVal (b : Buf) (i0 e : Nat) (f : PUIntBody) : Prop :=
+  HtUIntVal b i0 e f ∧ f.sVal.len ≤ 9 ∧ f.uiVal ≤ 16777216
+
+def HtCSeqVal (b : Buf) (i0 e : Nat) (f : PCSeqBody) : Prop :=
+  ∃ v j m t p, ∃ c2 : UInt8, Lws b i0 v ∧ Run isDigit b v j ∧ v < j ∧ j - v ≤ 10 ∧ decOf (digitsOf b v j) ≤ 4294967295 ∧
+    Lws b j m ∧ j < m ∧ TokenRun b m t ∧ m < t ∧ Lws b t p ∧ Eol b p e ∧ b[e]? = some c2 ∧ isWS c2 = false ∧
+    f = { cseqNo := decOf (digitsOf b v j), methodNo := getMethodNo (b.extract m t), cseq := ⟨v, j - v⟩,
+          method := ⟨m, t - m⟩, v := ⟨v, t - v⟩, state := .fin }
+
+theorem HtCallIDVal.parse {b : Buf} {i0 e : Nat} {f : PCallIDBody} (H : HtCallIDVal b i0 e f) (hfit : b.size ≤ 65535) :
+    parseCallIDVal b i0 {} = (e, .ok, f) ∧ i0 < e := by
+  obtain ⟨v, j, p, c2, h1, h2, h3, h4, h5, h6, h7, rfl⟩ := H
+  exact ⟨ht_callid_run b i0 v j p e hfit h1 h2 h3 h4 h5 h6 h7, by have := h1.le; have := h4.le; have := h5.gt; omega⟩
+
+theorem HtUIntVal.parse {b : Buf} {i0 e : Nat} {f : PUIntBody} (H : HtUIntVal b i0 e f) (hfit : b.size ≤ 65535) :
+    parseUIntVal b i0 {} = (e, .ok, f) ∧ i0 < e := by
+  obtain ⟨v, j, p, c2, h1, h2, h3, h4, h5, h6, h7, h8, rfl⟩ := H
+  exact ⟨ht_uint_run b i0 v j p e hfit h1 h2 h3 h4 h5 h6 h7 h8, by have := h1.le; have := h5.le; have := h6.gt; omega⟩
+
+theorem HtCLenVal.parse {b : Buf} {i0 e : Nat} {f : PUIntBody} (H : HtCLenVal b i0 e f) (hfit : b.size ≤ 65535) :
+    parseCLenVal b i0 {} = (e, .ok, f) ∧ i0 < e := by
+  obtain ⟨⟨v, j, p, c2, h1, h2, h3, h4, h5, h6, h7, h8, rfl⟩, h9, h10⟩ := H
+  exact ⟨ht_clen_run b i0 v j p e hfit h1 h2 h3 h9 h10 h5 h6 h7 h8, by have := h1.le; have := h5.le; have := h6.gt; omega⟩
+
+theorem HtCSeqVal.parse {b : Buf} {i0 e : Nat} {f : PCSeqBody} (H : HtCSeqVal b i0 e f) (hfit : b.size ≤ 65535) :
+    parseCSeqVal b i0 {} = (e, .ok, f) ∧ i0 < e := by
+  obtain ⟨v, j, m, t, p, c2, h1, h2, h3, h4, h5, h6, h7, h8, h9, h10, h11, h12, h13, rfl⟩ := H
+  exact ⟨ht_cseq_run b i0 v j m t p e hfit h1 h2 h3 h4 h5 h6 h7 h8 h9 h10 h11 h12 h13,
+    by have := h1.le; have := h10.le; have := h11.gt; omega⟩
+
+/-- the part of a header line up to the colon: name `[o, n)`, optional spaces / tabs, colon at `c` -/
+def HtName (b : Buf) (o n c : Nat) : Prop := NameRun b o n ∧ o < n ∧ WsRun b n c ∧ n ≤ c ∧ b[c]? = some 58
+
+/-- what a line contributes to the multi-valued objects -/
+inductive HtEv where
+  | other
+  | contact (rs : List PFromBody)
+  | pai (rs : List PFromBody)
+
+/-- **a header line of a block parsed with a values object** `hv`: the line at `o`, the offset `e` after it, the
+    header it denotes, the values object after it and its contribution to the Contact / PAI lists. Either a line
+    scanned generically (`HdrLineAt`, for a type without value parser or a repeated single-valued header), or a
+    line of one of the eight typed kinds whose value satisfies the value grammar of that kind (single-valued kinds:
+    into a new component). -/
+inductive HtLine (b : Buf) (o : Nat) (hv : PHdrVals) : Nat → Hdr → PHdrVals → HtEv → Prop
+  | generic (e : Nat) (h : Hdr) : HdrLineAt b o e h → HtGen h.type hv → HtLine b o hv e h hv .other
+  | from_ (n c e : Nat) (r : PFromBody) : HtName b o n c → getHdrType (b.extract o n) = HdrFrom → hv.from_ = {} →
+      NAValue HdrFrom b (c + 1) e .ok r → HtLine b o hv e (hdrAt HdrFrom o n r.v .fin) { hv with from_ := r } .other
+  | to (n c e : Nat) (r : PFromBody) : HtName b o n c → getHdrType (b.extract o n) = HdrTo → hv.to = {} →
+      NAValue HdrTo b (c + 1) e .ok r → HtLine b o hv e (hdrAt HdrTo o n r.v .fin) { hv with to := r } .other
+  | callid (n c e : Nat) (f : PCallIDBody) : HtName b o n c → getHdrType (b.extract o n) = HdrCallID →
+      hv.callid = {} → HtCallIDVal b (c + 1) e f →
+      HtLine b o hv e (hdrAt HdrCallID o n f.callID .fin) { hv with callid := f } .other
+  | cseq (n c e : Nat) (f : PCSeqBody) : HtName b o n c → getHdrType (b.extract o n) = HdrCSeq →
+      hv.cseq = {} → HtCSeqVal b (c + 1) e f →
+      HtLine b o hv e (hdrAt HdrCSeq o n f.v .fin) { hv with cseq := f } .other
+  | clen (n c e : Nat) (f : PUIntBody) : HtName b o n c → getHdrType (b.extract o n) = HdrCLen →
+      hv.clen = {} → HtCLenVal b (c + 1) e f →
+      HtLine b o hv e (hdrAt HdrCLen o n f.sVal .fin) { hv with clen := f } .other
+  | expires (n c e : Nat) (f : PUIntBody) : HtName b o n c → getHdrType (b.extract o n) = HdrExpires →
+      hv.expires = {} → HtUIntVal b (c + 1) e f →
+      HtLine b o hv e (hdrAt HdrExpires o n f.sVal .fin) { hv with expires := f } .other
+  | contact (n c e : Nat) (rs : List PFromBody) : HtName b o n c → getHdrType (b.extract o n) = HdrContact →
+      ValList HdrContact b (c + 1) rs e →
+      HtLine b o hv e (hdrAt HdrContact o n (htSpan rs) .fin) { hv with contacts := hv.contacts.htLine rs } (.contact rs)
+  | pai (n c e : Nat) (rs : List PFromBody) : HtName b o n c → getHdrType (b.extract o n) = HdrPAI →
+      ValList HdrPAI b (c + 1) rs e →
+      HtLine b o hv e (hdrAt HdrPAI o n (htSpan rs) .fin) { hv with pais := hv.pais.htLine rs } (.pai rs)
+
+/-- the multi-valued components are ready for a header line -/
+def HtReady (hv : PHdrVals) : Prop := HtCtReady hv.contacts ∧ HtPaReady hv.pais
+
+theorem HtName.lt {b : Buf} {o n c : Nat} (H : HtName b o n c) : o < c + 1 ∧ c < b.size := by
+  obtain ⟨_, h1, _, h2, h3⟩ := H
+  have := get?_lt h3; omega
+
+/-- **ParseHdrLine on a line of a block** -/
+theorem HtLine.parse {b : Buf} {o e : Nat} {hv hv' : PHdrVals} {h : Hdr} {ev : HtEv} (H : HtLine b o hv e h hv' ev)
+    (hfit : b.size ≤ 65535) (hr : HtReady hv) :
+    parseHdrLine b o {} (some hv) = (e, .ok, h, some hv') ∧ o < e ∧ o < b.size ∧ HtReady hv' := by
+  cases H with
+  | generic _ _ hline hg => have := hline.gt; exact ⟨hline.ht_parse hv hfit hg, this.1, by omega, hr⟩
+  | from_ n c _ r hn ht hnew hval =>
+    have := hn.lt; have := hval.range
+    obtain ⟨h1, h2, h3, h4, h5⟩ := hn
+    exact ⟨ht_from_value b o n c e r hv hfit h1 h2 h3 h4 h5 ht hnew hval, by omega, by omega, hr⟩
+  | to n c _ r hn ht hnew hval =>
+    have := hn.lt; have := hval.range
+    obtain ⟨h1, h2, h3, h4, h5⟩ := hn
+    exact ⟨ht_to_value b o n c e r hv hfit h1 h2 h3 h4 h5 ht hnew hval, by omega, by omega, hr⟩
+  | callid n c _ f hn ht hnew hval =>
+    have := hn.lt
+    obtain ⟨h1, h2, h3, h4, h5⟩ := hn
+    obtain ⟨hp, hlt⟩ := hval.parse hfit
+    rw [← hnew] at hp
+    have := ht_line_callid b o n c hv hfit h1 h2 h3 h4 h5 ht (by rw [hnew]; rfl) hp
+    exact ⟨this, by omega, by omega, hr⟩
+  | cseq n c _ f hn ht hnew hval =>
+    have := hn.lt
+    obtain ⟨h1, h2, h3, h4, h5⟩ := hn
+    obtain ⟨hp, hlt⟩ := hval.parse hfit
+    rw [← hnew] at hp
+    have := ht_line_cseq b o n c hv hfit h1 h2 h3 h4 h5 ht (by rw [hnew]; rfl) hp
+    exact ⟨this, by omega, by omega, hr⟩
+  | clen n c _ f hn ht hnew hval =>
+    have := hn.lt
+    obtain ⟨h1, h2, h3, h4, h5⟩ := hn
+    obtain ⟨hp, hlt⟩ := hval.parse hfit
+    rw [← hnew] at hp
+    have := ht_line_clen b o n c hv hfit h1 h2 h3 h4 h5 ht (by rw [hnew]; rfl) hp
+    exact ⟨this, by omega, by omega, hr⟩
+  | expires n c _ f hn ht hnew hval =>
+    have := hn.lt
+    obtain ⟨h1, h2, h3, h4, h5⟩ := hn
+    obtain ⟨hp, hlt⟩ := hval.parse hfit
+    rw [← hnew] at hp
+    have := ht_line_expires b o n c hv hfit h1 h2 h3 h4 h5 ht (by rw [hnew]; rfl) hp
+    exact ⟨this, by omega, by omega, hr⟩
+  | contact n c _ rs hn ht hval =>
+    have := hn.lt; have := ht_vallist_range hval
+    obtain ⟨h1, h2, h3, h4, h5⟩ := hn
+    exact ⟨ht_contact_values b o n c e rs hv hfit h1 h2 h3 h4 h5 ht hr.1 hval, by omega, by omega,
+      ht_htLine_ready hv.contacts rs hr.1 hval.ne_nil (ht_vallist_fin hval), hr.2⟩
+  | pai n c _ rs hn ht hval =>
+    have := hn.lt; have := ht_vallist_range hval
+    obtain ⟨h1, h2, h3, h4, h5⟩ := hn
+    exact ⟨ht_pai_values b o n c e rs hv hfit h1 h2 h3 h4 h5 ht hr.2 hval, by omega, by omega,
+      hr.1, ht_paLine_ready hv.pais rs hr.2 hval.ne_nil (ht_vallist_fin hval)⟩
+
+/-- a header block parsed with a values object: lines one after the other (the values object threaded through them),
+    then the empty line; `hs` are the headers denoted, `evs` the contributions to the Contact / PAI lists -/
+inductive HtBlock (b : Buf) : Nat → PHdrVals → List Hdr → List HtEv → Nat → PHdrVals → Prop
+  | nil (o e : Nat) (hv : PHdrVals) : EmptyLine b o e → HtBlock b o hv [] [] e hv
+  | cons (o e1 e : Nat) (hv hv1 hv' : PHdrVals) (h : Hdr) (hs : List Hdr) (ev : HtEv) (evs : List HtEv) :
+      HtLine b o hv e1 h hv1 ev → HtBlock b e1 hv1 hs evs e hv' → HtBlock b o hv (h :: hs) (ev :: evs) e hv'
+
+/-- **ParseHeaders on a well-formed block with a values object**: one header per line, in order (generic and typed
+    lines mixed), the values object as left by the typed lines, then the end of the block -/
+theorem ht_parseHeaders_block (b : Buf) (hfit : b.size ≤ 65535) {o e : Nat} {hv hv' : PHdrVals} {hs : List Hdr}
+    {evs : List HtEv} (H : HtBlock b o hv hs evs e hv') :
+    ∀ (hl : HdrLst), HlsClean hl → hl.cur = {} → HtReady hv →
+      parseHeaders b o hl (some hv) =
+        (e, (if (hl.acceptAll hs).n > 0 then Err.ok else Err.empty), (hl.acceptAll hs).setCur { state := .fin },
+          some hv') ∧ HtReady hv' := by
+  induction H with
+  | nil o e hv he =>
+    intro hl _ hcur hr
+    obtain ⟨hp, hlt⟩ := he.parse (some hv)
+    refine ⟨?_, hr⟩
+    rw [parseHeaders, if_pos hlt, hcur, hp]
+    simp only [HdrLst.acceptAll, List.foldl_nil]
+    by_cases hn : hl.n > 0 <;> simp only [hn, ↓reduceIte]
+  | cons o e1 e hv hv1 hv' h hs ev evs hline _ ih =>
+    intro hl hc hcur hr
+    obtain ⟨hp, hlt, hsz, hr1⟩ := hline.parse hfit hr
+    have hcl := accept_clean hl h hc
+    obtain ⟨hrest, hr'⟩ := ih _ hcl.1 hcl.2 hr1
+    refine ⟨?_, hr'⟩
+    rw [parseHeaders, if_pos hsz, hcur, hp]
+    simp only
+    rw [if_pos hlt, hrest]
+    rfl
+
+/-- the value lists of the Contact lines of a block, in order -/
+def htCtOf : List HtEv → List (List PFromBody)
+  | [] => []
+  | .contact rs :: evs => rs :: htCtOf evs
+  | _ :: evs => htCtOf evs
+
+/-- the value lists of the P-Asserted-Identity lines of a block, in order -/
+def htPaOf : List HtEv → List (List PFromBody)
+  | [] => []
+  | .pai rs :: evs => rs :: htPaOf evs
+  | _ :: evs => htPaOf evs
+
+theorem HtLine.contacts {b : Buf} {o e : Nat} {hv hv' : PHdrVals} {h : Hdr} {ev : HtEv} (H : HtLine b o hv e h hv' ev) :
+    hv'.contacts = hv.contacts.htLines (htCtOf [ev]) ∧ hv'.pais = hv.pais.htLines (htPaOf [ev]) := by
+  cases H <;> exact ⟨rfl, rfl⟩
+
+theorem ht_htLines_append (c : PContacts) (l1 l2 : List (List PFromBody)) :
+    c.htLines (l1 ++ l2) = (c.htLines l1).htLines l2 := by
+  unfold PContacts.htLines; rw [List.foldl_append]
+
+theorem ht_paLines_append (c : PPAIs) (l1 l2 : List (List PFromBody)) :
+    c.htLines (l1 ++ l2) = (c.htLines l1).htLines l2 := by
+  unfold PPAIs.htLines; rw [List.foldl_append]
+
+theorem htCtOf_cons (ev : HtEv) (evs : List HtEv) : htCtOf (ev :: evs) = htCtOf [ev] ++ htCtOf evs := by
+  cases ev <;> rfl
+
+theorem htPaOf_cons (ev : HtEv) (evs : List HtEv) : htPaOf (ev :: evs) = htPaOf [ev] ++ htPaOf evs := by
+  cases ev <;> rfl
+
+/-- **(3) the Contact values of a whole block**: whatever other headers stand between them, the contacts object
+    after the block is the old one after the Contact lines of the block, in order (`htLines`: see `ht_htLines_hNo`,
+    `ht_htLines_n`, `ht_htLines_stored`, `ht_htLines_maxE`, `ht_htLines_minE`); likewise P-Asserted-Identity -/
+theorem HtBlock.contacts {b : Buf} {o e : Nat} {hv hv' : PHdrVals} {hs : List Hdr} {evs : List HtEv}
+    (H : HtBlock b o hv hs evs e hv') :
+    hv'.contacts = hv.contacts.htLines (htCtOf evs) ∧ hv'.pais = hv.pais.htLines (htPaOf evs) := by
+  induction H with
+  | nil o e hv _ => exact ⟨rfl, rfl⟩
+  | cons o e1 e hv hv1 hv' h hs ev evs hline _ ih =>
+    have := hline.contacts
+    rw [htCtOf_cons, htPaOf_cons, ht_htLines_append, ht_paLines_append, ← this.1, ← this.2]
+    exact ih
+
+/-- every Contact line of a block has at least one value -/
+theorem HtBlock.ct_ne {b : Buf} {o e : Nat} {hv hv' : PHdrVals} {hs : List Hdr} {evs : List HtEv}
+    (H : HtBlock b o hv hs evs e hv') : ∀ rs ∈ htCtOf evs, rs ≠ [] := by
+  induction H with
+  | nil o e hv _ => intro rs hrs; cases hrs
+  | cons o e1 e hv hv1 hv' h hs ev evs hline _ ih =>
+    intro rs hrs
+    cases hline with
+    | contact n c _ rs' hn ht hval =>
+      rcases List.mem_cons.1 hrs with h1 | h1
+      · rw [h1]; exact hval.ne_nil
+      · exact ih rs h1
+    | _ => exact ih rs hrs
+
+/-- a new list object (any capacity) satisfies the hypotheses of `ht_parseHeaders_block` -/
+theorem ht_new_list_ok (k : Nat) :
+    HlsClean ({ hdrs := Array.replicate k {} } : HdrLst) ∧ ({ hdrs := Array.replicate k {} } : HdrLst).cur = {} := by
+  have hrep : ∀ j, j < (Array.replicate k ({} : Hdr)).size → (Array.replicate k ({} : Hdr))[j]! = {} := by
+    intro j hj; simp at hj; simp [hj]
+  refine ⟨⟨fun j _ hj => hrep j hj, fun _ => rfl⟩, ?_⟩
+  unfold HdrLst.cur
+  split
+  · rename_i hin; exact hrep _ hin
+  · rfl
+
+/-! ### non-vacuity and tests -/
+
+/-- the block used below: two Contact lines (compact name `m`) with a Via line (compact `v`) between them -/
+abbrev htExB : Buf := "m:<a>\r\nv:x\r\nm:<b>,<c>\r\n\r\n".toUTF8.data
+
+/-- the values object used below: new, with a contact array of two slots -/
+abbrev htExHv : PHdrVals := { contacts := { vals := Array.replicate 2 {} } }
+
+theorem htExHv_ready : HtReady htExHv := ⟨ht_ready_new 2, ht_paReady_new⟩
+
+/-- `<x>` at `[o, o + 3)` as a name-addr value -/
+theorem htEx_angle (h : Nat) (o o' : Nat) (e' : Err) (h0 : htExB[o]? = some 60) (h1 : runCheck isURIch htExB (o + 1) (o + 2) = true)
+    (h2 : htExB[o + 2]? = some 62) (T : Term h htExB (o + 2 + 1) o' e') :
+    NAValue h htExB o o' e' (naResult h {} ⟨o + 1, o + 2 - (o + 1)⟩ {} ⟨o, o + 2 + 1 - o⟩ {}) :=
+  Or.inl ⟨o, o, o + 2, {}, .nil o, .none h0, run_of_check h1, by omega, h2, T, rfl⟩
+
+/-- **the hypotheses of the block theorem are satisfiable** (non-vacuity): the block above is an `HtBlock` with a
+    Contact line of one value, a generic line, and a Contact line of two values -/
+theorem htEx_block : ∃ hs hv', HtBlock htExB 0 htExHv hs [.contact
+      [naResult HdrContact {} ⟨3, 1⟩ {} ⟨2, 3⟩ {}], .other,
+      .contact [naResult HdrContact {} ⟨15, 1⟩ {} ⟨14, 3⟩ {}, naResult HdrContact {} ⟨19, 1⟩ {} ⟨18, 3⟩ {}]] 25 hv' ∧
+    hs.length = 3 := by
+  have name1 : ∀ o : Nat, (∃ c, htExB[o]? = some c ∧ isLWSch c = false ∧ c ≠ 58) → htExB[o + 1]? = some 58 →
+      HtName htExB o (o + 1) (o + 1) := by
+    intro o ⟨c, h1, h2, h3⟩ h4
+    refine ⟨fun k hk1 hk2 => ?_, by omega, fun k hk1 hk2 => by omega, Nat.le_refl _, h4⟩
+    have : k = o := by omega
+    subst this; exact ⟨c, h1, h2, h3⟩
+  -- line 1: `m:<a>` CR LF
+  have l1 : HtLine htExB 0 htExHv 7 _ _ (.contact [naResult HdrContact {} ⟨3, 1⟩ {} ⟨2, 3⟩ {}]) :=
+    .contact 1 1 7 _ (name1 0 ⟨109, by decide, by decide, by decide⟩ (by decide)) (by decide +kernel)
+      (.last 2 7 _ (htEx_angle HdrContact 2 7 .ok (by decide) (by decide) (by decide)
+        (.eol 5 7 118 (.nil 5) (.crlf 5 (by decide) (by decide)) (by decide) (by decide))))
+  -- line 2: `v:x` CR LF, generic
+  have l2 : ∀ hv, HtLine htExB 7 hv 12 (hdrAt (getHdrType (htExB.extract 7 8)) 7 8 ⟨9, 10 - 9⟩ .fin) hv .other := by
+    intro hv
+    refine .generic 12 _ (Or.inl ⟨8, 8, 9, 10, 10, 109, (name1 7 ⟨118, by decide, by decide, by decide⟩ (by decide)).1,
+      by decide, fun k h1 h2 => by omega, by decide, by decide, .nil 9, ?_, .crlf 10 (by decide) (by decide), by decide,
+      by decide, rfl⟩) (Or.inl ?_)
+    · refine .last 9 10 10 (fun k h1 h2 => ?_) (by decide) (.nil 10)
+      have : k = 9 := by omega
+      subst this; exact ⟨120, by decide, by decide⟩
+    · show IsOther (getHdrType (htExB.extract 7 8))
+      have ht : getHdrType (htExB.extract 7 8) = HdrVia := by decide +kernel
+      rw [ht]; unfold IsOther; decide
+  -- line 3: `m:<b>,<c>` CR LF
+  have l3 : ∀ hv : PHdrVals, HtLine htExB 12 hv 23
+      (hdrAt HdrContact 12 13 (htSpan [naResult HdrContact {} ⟨15, 1⟩ {} ⟨14, 3⟩ {}, naResult HdrContact {} ⟨19, 1⟩ {} ⟨18, 3⟩ {}]) .fin)
+      { hv with contacts := hv.contacts.htLine [naResult HdrContact {} ⟨15, 1⟩ {} ⟨14, 3⟩ {}, naResult HdrContact {} ⟨19, 1⟩ {} ⟨18, 3⟩ {}] }
+      (.contact [naResult HdrContact {} ⟨15, 1⟩ {} ⟨14, 3⟩ {}, naResult HdrContact {} ⟨19, 1⟩ {} ⟨18, 3⟩ {}]) := by
+    intro hv
+    exact .contact 13 13 23 _ (name1 12 ⟨109, by decide, by decide, by decide⟩ (by decide)) (by decide +kernel)
+      (.cons 14 18 23 _ _ (htEx_angle HdrContact 14 18 .moreValues (by decide) (by decide) (by decide)
+          (.comma 17 (.nil 17) (by decide) (by decide)))
+        (.last 18 23 _ (htEx_angle HdrContact 18 23 .ok (by decide) (by decide) (by decide)
+          (.eol 21 23 13 (.nil 21) (.crlf 21 (by decide) (by decide)) (by decide) (by decide)))))
+  exact ⟨_, _, .cons 0 7 25 _ _ _ _ _ _ _ l1 (.cons 7 12 25 _ _ _ _ _ _ _ (l2 _) (.cons 12 23 25 _ _ _ _ _ _ _ (l3 _)
+    (.nil 23 25 _ (.crlf 23 (by decide) (by decide))))), rfl⟩
+
+/-- … and what the theorems say about it: ParseHeaders returns OK at offset 25 with three headers, the contacts
+    object has seen two Contact lines and three values, of which the first two are stored in the array of two -/
+example : ∃ hl' hv', parseHeaders htExB 0 { hdrs := Array.replicate 4 {} } (some htExHv) = (25, .ok, hl', some hv') ∧
+    hl'.n = 3 ∧ hv'.contacts.hNo = 2 ∧ hv'.contacts.n = 3 ∧
+    hv'.contacts.vals[0]! = naResult HdrContact {} ⟨3, 1⟩ {} ⟨2, 3⟩ {} ∧
+    hv'.contacts.vals[1]! = naResult HdrContact {} ⟨15, 1⟩ {} ⟨14, 3⟩ {} := by
+  obtain ⟨hs, hv', hb, hlen⟩ := htEx_block
+  have hnew := ht_new_list_ok 4
+  obtain ⟨hp, _⟩ := ht_parseHeaders_block htExB (by decide) hb _ hnew.1 hnew.2 htExHv_ready
+  have hn : (({ hdrs := Array.replicate 4 {} } : HdrLst).acceptAll hs).n = 3 := by rw [acceptAll_n, hlen]
+  refine ⟨_, hv', by rw [hp, hn]; rfl, by rw [hlSetCur_n, hn], ?_, ?_, ?_, ?_⟩
+  · rw [hb.contacts.1, ht_htLines_hNo]; rfl
+  · rw [hb.contacts.1, ht_htLines_n]; rfl
+  · rw [hb.contacts.1]
+    exact ht_htLines_stored htExHv.contacts _ 0 (by decide) (by decide)
+  · rw [hb.contacts.1]
+    exact ht_htLines_stored htExHv.contacts _ 1 (by decide) (by decide)
+
+theorem ht_tokenrun_of_check {b : Buf} {i j : Nat} (h : runCheck (fun c => !isLWSch c) b i j = true) :
+    TokenRun b i j := by
+  intro k h1 h2
+  obtain ⟨c, hc, hp⟩ := run_of_check h k h1 h2
+  exact ⟨c, hc, by simpa using hp⟩
+
+/-- the hypotheses of `ht_cseq_run` are satisfiable: `42 INVITE` CR LF followed by `X` -/
+example : parseCSeqVal "42 INVITE\r\nX".toUTF8.data 0 {} =
+    (11, .ok, { cseqNo := 42, methodNo := MInvite, cseq := ⟨0, 2⟩, method := ⟨3, 6⟩, v := ⟨0, 9⟩, state := .fin }) := by
+  have := ht_cseq_run "42 INVITE\r\nX".toUTF8.data 0 0 2 3 9 9 11 (by decide) (.nil 0) (run_of_check (by decide))
+    (by decide) (by decide) (by decide +kernel) (.ws 2 3 32 (by decide) (by decide) (.nil 3)) (by decide)
+    (ht_tokenrun_of_check (by decide)) (by decide) (.nil 9) (.crlf 9 (by decide) (by decide)) (c2 := 88) (by decide)
+    (by decide)
+  rw [this]
+  have e1 : decOf (digitsOf "42 INVITE\r\nX".toUTF8.data 0 2) = 42 := by decide +kernel
+  have e2 : getMethodNo ("42 INVITE\r\nX".toUTF8.data.extract 3 9) = MInvite := by decide +kernel
+  rw [e1, e2]
+
+/-- the hypotheses of `ht_callid_value` are satisfiable: `i: a@b` CR LF followed by `X` (compact name, one space) -/
+example : parseHdrLine "i: a@b\r\nX".toUTF8.data 0 {} (some {}) =
+    (8, .ok, hdrAt HdrCallID 0 1 ⟨3, 3⟩ .fin, some { callid := { callID := ⟨3, 3⟩, state := .fin } }) := by
+  refine ht_callid_value "i: a@b\r\nX".toUTF8.data 0 1 1 3 6 6 8 {} (by decide) (fun k h1 h2 => ?_) (by decide)
+    (fun k h1 h2 => by omega) (by decide) (by decide) (by decide +kernel) rfl
+    (.ws 2 3 32 (by decide) (by decide) (.nil 3)) (ht_tokenrun_of_check (by decide)) (by decide) (.nil 6)
+    (.crlf 6 (by decide) (by decide)) (c2 := 88) (by decide) (by decide)
+  have : k = 0 := by omega
+  subst this; exact ⟨105, by decide, by decide, by decide⟩
+
+/-- tests (evaluation of the model, not proofs of the property): with a values object the typed kinds do NOT accept
+    what the generic scanner accepts — an empty value is "bad", a second token after a Call-ID is a bad character,
+    a Content-Length written with ten digits is "number too big" whatever its value -/
+example : (parseHdrLine "i:\r\nX".toUTF8.data 0 {} (some {})).2.1 = .bad ∧
+    (parseHdrLine "i:\r\nX".toUTF8.data 0 {} none).2.1 = .ok ∧
+    (parseHdrLine "i: a b\r\nX".toUTF8.data 0 {} (some {})).2.1 = .badChar ∧
+    (parseHdrLine "i: a b\r\nX".toUTF8.data 0 {} none).2.2.1.val = ⟨3, 3⟩ ∧
+    (parseHdrLine "l: 0000000001\r\nX".toUTF8.data 0 {} (some {})).2.1 = .numTooBig ∧
+    (parseHdrLine "l: 0000000001\r\nX".toUTF8.data 0 {} (some {})).1 = 3 := by
+  decide +kernel
+
+/-- test: a second Call-ID header of the same message is scanned generically (`HtGen`) and leaves the object alone -/
+example :
+    let r := parseHdrLine "i: x y\r\nX".toUTF8.data 0 {} (some { callid := { callID := ⟨3, 3⟩, state := .fin } })
+    r.1 = 8 ∧ r.2.1 = .ok ∧ r.2.2.1 = { type := HdrCallID, name := ⟨0, 1⟩, val := ⟨3, 3⟩, state := .fin } ∧
+    r.2.2.2.map (·.callid) = some { callID := ⟨3, 3⟩, state := .fin } := by
+  decide +kernel
 
 end Sipsp
